@@ -426,6 +426,31 @@ def sib_filter(ctx: Ctx) -> List[Ob]:
                                           f"`{norm(x)}`: {g.qualname} answers from a table it filled on an earlier call: nodes that share the key (clones) get the verdict "
                                           "of the first one, although the predicate may decide by position"))
                         return obs
+    # ... or the predicate itself is wrapped, on its way to the walkers, by something that answers from such a table
+    def _memoising(g) -> bool:
+        body = list(ast.walk(g.node))
+        asks = any(isinstance(y, ast.Call) and (norm(y.func) == "call_predicate" or (isinstance(y.func, ast.Name) and y.func.id in g.top.param_names())) for y in body)
+        table_read = any((isinstance(y, ast.Subscript) and isinstance(y.ctx, ast.Load) and isinstance(y.value, ast.Name)) or
+                         (isinstance(y, ast.Call) and isinstance(y.func, ast.Attribute) and y.func.attr == "get" and isinstance(y.func.value, ast.Name)) for y in body)
+        table_write = any(isinstance(y, ast.Subscript) and isinstance(y.ctx, ast.Store) and isinstance(y.value, ast.Name) for y in body)
+        return asks and table_read and table_write
+
+    for q in ("Tree.copy", "Node.copy", "Tree.filtered", "Node.filtered", "Tree.filter", "Node.filter", "Node._add_from", "Node._add_filtered"):
+        try:
+            g0 = m.func(q)
+        except Exception:  # noqa: BLE001
+            continue
+        for c in ctx.env.calls_in.get(g0, []):
+            if not any(isinstance(a_, ast.Name) and a_.id == "predicate" for a_ in list(c.args) + [k.value for k in c.keywords]):
+                continue
+            for h, _r in ctx.env.callees(g0, c):
+                if h.qualname.split(".")[-1] in ("copy", "filter", "filtered", "_add_from", "_add_filtered", "call_predicate"):
+                    continue
+                if _memoising(h):
+                    obs.append(ctx.ob("SIB-FILTER", ["C08"], g0, "predicate evaluated once per child via call_predicate", c, False,
+                                      f"`{norm(c)}`: {h.qualname} answers from a table it filled on an earlier call: nodes that share the key (clones) get the verdict "
+                                      "of the first one, although the predicate may decide by position"))
+                    return obs
     accs = find(f"$acc.append({li.target.id})", li)
     keepv = [n for n in iter_own(fi.node) if isinstance(n, ast.Return) and isinstance(n.value, ast.Name)]
     mats = [g for g in m.func("Node._add_filtered").nested if not g.param_names()]
